@@ -38,6 +38,21 @@ def run(ctx):
             a = [tb.operand(x, bi, len(add_n.blocks[bi].stmts)) for x in t.args]
             if a[0] == ("field", selfp, "table"):
                 (idx_w if t.callee_name() == "index_mut" else idx_r).append(a[1])
+    # a slice view of the table (`let table = self.table.as_mut_slice()`) is indexed by a built-in place projection, not a call
+    for bi, blk in enumerate(add_n.blocks):
+        if blk.cleanup:
+            continue
+        for si, st in enumerate(blk.stmts):
+            if st.k != "assign":
+                continue
+            for pl in ([st.rv.place] if st.rv.place is not None else []) + [o.place for o in st.rv.ops if o.place is not None] + [st.place]:
+                ix = [pr for pr in pl.proj if pr["k"] == "index"]
+                if not ix:
+                    continue
+                base = tb.local(pl.local, bi, si)
+                if base == ("field", selfp, "table"):
+                    it_ = tb.local(ix[0]["local"], bi, si)
+                    (idx_w if (st.rv.k == "ref" and st.rv.j.get("bk") == "mut") or pl is st.place else idx_r).append(it_)
     # (a cell looked up once with `&mut self.table[x]` is read and written through that one reference: no separate read index;
     # that the stored value is the old value of the same cell + n is R02-every-row-updated)
     okw = bool(idx_w) and all(x == want for x in idx_w + idx_r)
